@@ -4,7 +4,7 @@ from collections import Counter
 import common, drv
 from props import c06
 
-THEOREMS = ["Cost.improves_spec"]
+THEOREMS = ["Enc.penalty_affine", "Enc.penalty_difference", "Enc.layer_cake", "Enc.telescope", "Enc.term_miss", "Enc.decoded_decodeAt", "Cost.improves_spec"]
 OSETS = [[], ["-order-bounds"], ["-order-conflicts"], ["-at-most"], ["-pushed-once"], ["-no-output-before-pop"],
          ["-size"], ["-length"], ["-size", "-order-bounds"], ["-length", "-at-most", "-pushed-once"], ["-memory-encoding", "l_vars"],
          ["-direct-inequalities"], ["-term-encoding", "int"]]
@@ -52,9 +52,12 @@ def soft_cost(e, seq, tfirst):
 def run(tier):
     sd = common.seed()
     rng = random.Random(sd * 2741 + 53)
-    po = common.proof_obligations("GasolVerif.Proofs.CostSound", THEOREMS)
+    po = common.proof_obligations("GasolVerif.Proofs.EncodingSoftSound,GasolVerif.Proofs.CostSound", THEOREMS)
     violations = [{"kind": "broken-proof-obligation", "what": b, "no_failing_input": True, "input": b} for b in po["broken"]]
     c = Counter()
+    # pricing: the soft clauses Models/EncodingSoft.lean generates from the encoder's own weight table must be exactly the emitted ones
+    # (premise of Enc.penalty_affine); hard-constraint differences found on the way belong to C06 and are not reported here
+    c06.enc_correspondence(tier, random.Random(sd * 613 + 11), c, [], soft_out=violations)
     maxlen = 4 if tier == "quick" else 5
     res = c06.collect(tier, sd + 5, rng, maxlen, 6, osets=OSETS)
     inst = []
@@ -145,8 +148,13 @@ def run(tier):
                    "realizable specification, optima must agree across option sets, and soft cost minus true cost must be constant over the "
                    "enumerated models" % (maxlen, len(OSETS)),
            "samples": samples or [{"n": 0}], "counters": dict(c), "exhaustive": True}
+    cov["obligations"], cov["discharged"], cov["axioms"] = po["obligations"], po["discharged"], po["axioms"]
+    cov["rule"] += ("; pricing: Enc.penalty_affine (all valuations) for the soft clauses generated from the encoder's own weight table, which must equal the "
+                    "emitted weighted clauses as multisets on every instance (grouped mode)")
     return {"level": "model_checking", "coverage": cov, "violations": violations,
-            "assumptions": ["bounded enumeration (labelled as such): exhaustive only for instances with init_progr_len <= %d and small vocabularies" % maxlen,
+            "assumptions": ["pricing clause: proved for the model's clauses (penalty_affine), tied by exact comparison with the emitted soft constraints; weights are the "
+                            "encoder's own table (captured at the call) - that they are the true gas/bytes is C08's reference cost and the open finding on -size",
+                            "bounded enumeration (labelled as such): exhaustive only for instances with init_progr_len <= %d and small vocabularies" % maxlen,
                             "z3 as stand-in for the Max-SMT solver; 'optimal' is z3's claim"]}
 
 
